@@ -499,7 +499,8 @@ def analyze(ctx, want):
         if ok:
             it = tf[0][4][2][0] if tf[0][4] and tf[0][4][0] == "app" else tf[0][3][0]
             its = S.vstr(it)
-            ok_it = "items" in its and not re.search(r"rev|skip|take|filter|step_by", its)
+            ad2 = [M.short_name(M.call_name(t)) for bb, t in fn.calls(r"Iterator>::(rev|skip|take|filter|filter_map|step_by|skip_while|take_while|chain|zip|cycle)\b")]
+            ok_it = "items" in its and not re.search(r"rev|skip|take|filter|step_by", its) and not ad2
             seed = tf[0][3][1]
             sclo = unwrap_ok(seed)
             a, t = truth_table(eval_closure(F, sclo), lambda v: None) if sclo[0] == "closure" else (None, "seed is not a closure")
@@ -617,8 +618,9 @@ def analyze(ctx, want):
         r = p.end[1]
         if r[0] == "adt" and r[2] == "Ok":
             tf = p.calls(r"Iterator>::try_fold::")
-            ok = len(tf) == 1 and "self.character_classes" in S.vstr(tf[0][4] if tf[0][4] else tf[0][3][0]) and not re.search(r"Iterator>::(rev|skip|take|filter|step_by)", S.vstr(tf[0][4] if tf[0][4] else tf[0][3][0]))
-            ob("C08.e", "one-predicate-per-class-in-id-order", ok, "try_fold over %s" % (S.vstr(tf[0][3][0])[:80] if tf else None), cm.loc())
+            adapters = [M.short_name(M.call_name(t)) for bb, t in cm.calls(r"Iterator>::(rev|skip|take|filter|filter_map|step_by|skip_while|take_while|chain|zip|cycle)\b|::(sort\w*|reverse|dedup\w*|retain|swap|rotate_\w+)$")]
+            ok = len(tf) == 1 and "self.character_classes" in S.vstr(tf[0][4] if tf[0][4] else tf[0][3][0]) and not adapters
+            ob("C08.e", "one-predicate-per-class-in-id-order", ok, "try_fold over %s; reordering/filtering calls: %s" % (S.vstr(tf[0][4] if tf and tf[0][4] else None)[:80] if tf else None, adapters), cm.loc())
     cls = F.closures_of(cm)
     step = [c for c in cls if c.argc == 3]
     idx = [c for c in cls if c.argc == 3 and False]
